@@ -160,6 +160,12 @@ def run(ctx):
     synth += [(s, b) for s in englib.SYNTH for b in boundary]
     stock = [(englib.STOCK[i % 4], englib.gen_edit_history(rng, length())) for i in range(n_stock)]
     stock += [(s, b) for s in englib.STOCK for b in boundary]
+    # long inputs: more than 128 spelling letters in front of the caret (both tiers)
+    long_synth = englib.long_edit_histories([129, 130, 200, 257] if quick else [129, 130, 131, 200, 256, 257, 260], cheap="nihao")
+    synth += [(englib.SYNTH[i % 2], h) for i, h in enumerate(long_synth)]
+    long_stock = englib.long_edit_histories([130] if quick else [129, 200, 257])
+    long_stock = long_stock[:4] + long_stock[-1:] if quick else long_stock
+    stock += [(s, h) for s in englib.STOCK for h in long_stock]
 
     stats = collections.Counter()
     keyc = collections.Counter()
@@ -257,7 +263,9 @@ def run(ctx):
     ctx.coverage.update({
         "evaluations": stats["evaluations"],
         "distinct_nontrivial": stats["caret_in_middle_of_long_input"],
-        "rule": "histories of 1..200 keys over {a-z, BackSpace, Delete, KP_Left, KP_Right, Home, End, Escape}; an evaluation = one key "
+        "long_histories": {"synth": len(long_synth), "stock_per_schema": len(long_stock),
+                           "what": "129..260 letters then Escape / Home+Escape / KP_Left x k + Escape / BackSpace / Delete / End"},
+        "rule": "histories of 1..200 keys (plus the long_histories family of up to 400 keys) over {a-z, BackSpace, Delete, KP_Left, KP_Right, Home, End, Escape}; an evaluation = one key "
                 "whose observation (handled, input, caret, pending commit) is compared with the buffer spec; non-trivial = the key "
                 "acted on an input of >= 8 bytes with the caret strictly inside",
         "samples": samples, "distribution": dict(stats), "key_classes": dict(keyc),
